@@ -326,11 +326,11 @@ func TestC10(t *testing.T) {
 			prefix, reach = GenWalk(rt, MustDecode(doc.Text(), useNumber), 3, strict, "w")
 		}
 		if prefix == nil {
-			g.budget = 1 + g.n(4, "plen")
+			g.budget = 1 + g.n(sz(4), "plen")
 			prefix = g.chain(gctx{}, 1+g.n(3, "pchain"))
 		}
 		mkCond := func(l string) *Node {
-			g.budget = 1 + g.n(7, l+"size")
+			g.budget = 1 + g.n(sz(7), l+"size")
 			if reach != nil {
 				return Normalize(GenCondFor(rt, reach, g, l))
 			}
